@@ -66,8 +66,9 @@ def step_worker(args):
             out['results'].append(rec)
         out.update(paths=len(outs), stmts=M.stats['stmts'], feas_queries=M.nq, feas_s=round(M.qtime, 1), cut_head=S.cut_head,
                    idx_bits=S.idx_bits)
-    except mirx.Unsupported as e:
-        out['error'] = 'unsupported: ' + str(e)
+    except Exception as e:
+        import traceback
+        out['error'] = ('unsupported: ' + str(e)) if isinstance(e, mirx.Unsupported) else ('internal error in the check machinery: ' + repr(e) + ' | ' + traceback.format_exc()[-700:])
     out['wall'] = round(time.time() - t0, 1)
     return out
 
